@@ -238,6 +238,16 @@ func intrinsicTable() map[string]func(in *Interp, fr *frame, args []Value) Value
 		f := ifaceFunc(args[0])
 		return in.funcAddr(f)
 	}
+	m["verifRunInit"] = func(in *Interp, fr *frame, args []Value) Value {
+		// run the n-th declared init function of the package under test on the current path
+		n := argInt(args[0])
+		f := fr.fn.Pkg.Func(fmt.Sprintf("init#%d", n))
+		if f == nil {
+			panic(pathAbort{fmt.Sprintf("verifRunInit: no init#%d in %s", n, fr.fn.Pkg.Pkg.Path())})
+		}
+		in.callSSA(fr, f, nil, nil)
+		return Bool(true)
+	}
 	m["verifFuncCode"] = func(in *Interp, fr *frame, args []Value) Value {
 		f := ifaceFunc(args[0])
 		return in.funcCode(f)
